@@ -173,10 +173,12 @@ def main(argv):
                     violations.append({'deductive': True, 'base_key': base_key, 'key': rin.get('key', base_key), 'text': '%s fails: %s' % (g.ob.name, rin.get('what', '')),
                                        'replay': path, 'suffix': ''})
                     continue
-                if rep is False and r['verdict'] == 'sat':
+                if rep is False and r['verdict'] == 'sat' and not rin.get('generic'):
                     # the counter-model does not reproduce: it exploited an under-constrained assumption
                     undecided.append((g.ob.name, 'counter-model did not reproduce on the real code'))
                     continue
+                # (a replay marked 'generic' is a fixed scenario for the commonest way the obligation fails, not the solver's model: when it does
+                # not fail, the refuted obligation is still reported -- below -- as a violation without a failing input)
             if r['verdict'] == 'sat':
                 path = write_replay(prop, g.ob.name, payload)
                 reproduced_keys.add(base_key)
